@@ -33,10 +33,14 @@ CONSTANTS Transports,  \* subset of {"stream", "dgram"}
           MaxStray,    \* forged / duplicated replies injected by the environment
           BActs,       \* what B's handler does with a request: subset of {"none", "reply", "reply2"}
           BHrets,      \* ... and returns
-          SyncMax      \* messages handed to one sync call (0: no sync)
+          SyncMax,     \* messages handed to one sync call (0: no sync)
+          MaxBReq,     \* requests B sends to A
+          MaxBPlain,   \* messages without id B sends to A
+          CRets,       \* what a waiting caller returns when it is handed a reply
+          MaxChain     \* follow-up requests issued by callers from inside their callback (on top of MaxReq)
 
-VARIABLES tr, cid, wait, out, net, held, arr, hg, cnt, forged, xobs
-xstate == <<tr, cid, wait, out, net, held, arr, hg, cnt, forged>>
+VARIABLES tr, cid, wait, out, net, held, arr, hg, cnt, forged, bq, xobs
+xstate == <<tr, cid, wait, out, net, held, arr, hg, cnt, forged, bq>>
 xvars  == <<vars, xstate, xobs>>
 
 ---------------------------------------------------------------------------
@@ -81,17 +85,17 @@ BSame == UNCHANGED vars                 \* nothing happens at B
 ---------------------------------------------------------------------------
 (* requester: reserve an id for the next message *)
 AwaitOk(n, tok) ==      \* tok: the caller's own name for itself (callback argument)
-  /\ cid = 0 /\ Fresh(n) /\ Len(out) < MaxReq
+  /\ cid = 0 /\ Fresh(n) /\ Len(out) < MaxReq + cnt.chain
   /\ \A r \in DOMAIN out : out[r].tok # tok
   /\ cid' = n
   /\ wait' = Append(Compact, [id |-> n, w |-> Cur + 1])
   /\ out' = Append(out, [id |-> n, st |-> "reserved", got |-> 0, tok |-> tok])
-  /\ UNCHANGED <<tr, net, held, arr, hg, cnt, forged>> /\ BSame
+  /\ UNCHANGED <<tr, net, held, arr, hg, cnt, forged, bq>> /\ BSame
   /\ X("await", [w |-> tok], [ret |-> "ok"] @@ NoCalls, <<>>)
 \* refused: a message is being composed, or every id of the width is taken
 AwaitRefused(tok) ==
   /\ cid # 0 \/ NoneFree
-  /\ Len(out) < MaxReq
+  /\ Len(out) < MaxReq + cnt.chain
   /\ UNCHANGED xstate /\ BSame
   /\ X("await", [w |-> tok], [ret |-> "refused"] @@ NoCalls, <<>>)
 
@@ -116,91 +120,142 @@ Send(data) ==
           /\ UNCHANGED wait
           /\ X("send", [data |-> data],
                [ret |-> "ok", calls |-> <<>>, wire |-> <<[dir |-> "AB", id |-> pkt.id, data |-> data]>>], <<>>)
-  /\ UNCHANGED <<tr, held, arr, hg, forged>> /\ BSame
+  /\ UNCHANGED <<tr, held, arr, hg, forged, bq>> /\ BSame
 
-(* requester: one incoming message.  A reply goes to the caller waiting    *)
-(* for exactly that id -- once; then the id is free again.  A reply nobody *)
-(* waits for (second, late, unknown) is dropped and disturbs nobody.       *)
-Handled(p) ==      \* [wait, out, calls] after message p
-  LET n == ReplyId(p.id) IN
-  IF IsReply(p.id) /\ n \in LiveIds
-  THEN LET i == SlotOf(n)  r == wait[i].w IN
-       [wait |-> FreeSlot(i),
-        out |-> [out EXCEPT ![r].st = "answered", ![r].got = @ + 1],
-        calls |-> <<[w |-> out[r].tok, data |-> p.data]>>]
-  ELSE [wait |-> wait, out |-> out, calls |-> <<>>]
-AExp(calls) == [calls |-> calls, seen |-> <<>>, wire |-> <<>>]
+(* requester: incoming messages.  A reply goes to the caller waiting for    *)
+(* exactly that id -- once; then the id is free again.  A reply nobody     *)
+(* waits for (second, late, unknown) is dropped and disturbs nobody.  The  *)
+(* caller is scripted (cb): it returns cb.ret and, with cb.chain = 1,      *)
+(* issues a follow-up request (await + push) on the same connection from   *)
+(* inside the callback.  A message that is no reply (B asks A) goes to A's *)
+(* handler once; it never answers itself, so a request with an id gets the *)
+(* generic answer <<Answer, code>> under its own id marked as reply.       *)
+LiveIn(w)      == {i \in DOMAIN w : w[i].w # 0}
+ReserveOn(w)   ==      \* mpt_command_reserve on array w
+  LET ids  == {w[i].id : i \in LiveIn(w)}
+      mid  == IF w = <<>> THEN 0 ELSE MaxOfSet({w[i].id : i \in DOMAIN w})
+      low  == MinOf({n \in 1..(Cardinality(ids) + 1) : n \notin ids})
+  IN IF mid + 1 <= MaxId THEN [ok |-> TRUE, id |-> mid + 1]
+     ELSE IF low <= MaxId THEN [ok |-> TRUE, id |-> low] ELSE [ok |-> FALSE, id |-> 0]
+FreshOn(w, n)  == n >= 1 /\ n <= MaxId /\ Fits(ToLimbs(n), max) /\ n \notin {w[i].id : i \in LiveIn(w)}
+S0 == [wait |-> wait, out |-> out, cid |-> cid, ab |-> <<>>, calls |-> <<>>, chain |-> <<>>, seen |-> <<>>,
+       g |-> <<>>, bad |-> FALSE]
+\* ids: the ids the code gave to the follow-up requests, one per attempt (<<>>: the code's algorithm)
+RECURSIVE Proc(_, _, _, _)
+Proc(ps, S, cb, ids) ==
+  IF ps = <<>> THEN S
+  ELSE
+  LET p == ps[1]  rest == SubSeq(ps, 2, Len(ps)) IN
+  IF ~IsReply(p.id)
+  THEN LET code == IF cb.hret < 0 THEN ByteOf(cb.hret) ELSE 0
+           S1 == [S EXCEPT !.seen = Append(@, [id |-> Zero, reply |-> IF AllZero(p.id) THEN 0 ELSE 1, payload |-> p.data]),
+                           !.ab = IF AllZero(p.id) THEN @
+                                  ELSE Append(@, [id |-> Mark(p.id), data |-> <<AnswerCmd, code>>, g |-> 0])]
+       IN Proc(rest, S1, cb, ids)
+  ELSE
+  LET n == ReplyId(p.id)
+      live == {i \in LiveIn(S.wait) : S.wait[i].id = n}
+      Sg == [S EXCEPT !.g = Append(@, p.g)]
+  IN
+  IF live = {} THEN Proc(rest, Sg, cb, ids)
+  ELSE
+  LET i == MinOf(live)  r == S.wait[i].w
+      S1 == [Sg EXCEPT !.wait = [@ EXCEPT ![i].w = 0],
+                       !.out = [@ EXCEPT ![r].st = "answered", ![r].got = @ + 1],
+                       !.calls = Append(@, [w |-> S.out[r].tok, data |-> p.data])]
+  IN
+  IF cb.chain = 0 THEN Proc(rest, S1, cb, ids)
+  ELSE
+  LET j   == Len(S1.chain) + 1
+      t   == cb.cw + j - 1
+      can == S1.cid = 0 /\ ReserveOn(S1.wait).ok
+      nn  == IF ids = <<>> THEN ReserveOn(S1.wait).id ELSE IF j \in DOMAIN ids THEN ids[j] ELSE 0
+      r2  == Len(S1.out) + 1
+      S2  == IF can
+             THEN [S1 EXCEPT !.wait = Append(SelectSeq(@, LAMBDA e : e.w # 0), [id |-> nn, w |-> r2]),
+                             !.out = Append(@, [id |-> nn, st |-> "sent", got |-> 0, tok |-> t]),
+                             !.ab = Append(@, [id |-> Hdr(nn), data |-> <<t % 256, 7>>, g |-> r2]),
+                             !.chain = Append(@, [w |-> t, ret |-> "ok"]),
+                             !.bad = @ \/ ~FreshOn(S1.wait, nn) \/ \E q \in DOMAIN S1.out : S1.out[q].tok = t]
+             ELSE [S1 EXCEPT !.chain = Append(@, [w |-> t, ret |-> "refused"])]
+  IN Proc(rest, S2, cb, ids)
+
+NoCb == [ret |-> 0, chain |-> 0, cw |-> 0, hret |-> 0]
+AArg(cb) == [cret |-> cb.ret, chain |-> cb.chain, cw |-> cb.cw, hret |-> cb.hret]
+WireAB(ab) == [i \in DOMAIN ab |-> [dir |-> "AB", id |-> ab[i].id, data |-> ab[i].data]]
+AExp(S) == [calls |-> S.calls, chain |-> S.chain, seen |-> S.seen, wire |-> WireAB(S.ab)]
 OrderOK(dir, k) == k \in DOMAIN net[dir] /\ (tr = "stream" => k = 1)
+Adopt(S) == wait' = S.wait /\ out' = S.out /\ cid' = S.cid /\ ~S.bad
+Chained(S) == cnt' = [cnt EXCEPT !.chain = @ + Cardinality({j \in DOMAIN S.chain : S.chain[j].ret = "ok"})]
 
-DeliverA(k) ==
-  LET p == net.BA[k]  h == Handled(p) IN
-  /\ OrderOK("BA", k) /\ held = <<>> /\ arr = <<>> /\ IsReply(p.id)
-  /\ wait' = h.wait /\ out' = h.out
-  /\ net' = [net EXCEPT !.BA = RemoveAt(@, k)]
-  /\ UNCHANGED <<tr, cid, held, arr, hg, cnt, forged>> /\ BSame
-  /\ X("deliver", [dir |-> "BA", k |-> k], AExp(h.calls), <<p.g>>)
+DeliverA(k, cb, ids) ==
+  LET S == Proc(<<net.BA[k]>>, S0, cb, ids) IN
+  /\ OrderOK("BA", k) /\ held = <<>> /\ arr = <<>>
+  /\ Adopt(S)
+  /\ net' = [AB |-> net.AB \o S.ab, BA |-> RemoveAt(net.BA, k)]
+  /\ Chained(S)
+  /\ UNCHANGED <<tr, held, arr, hg, forged, bq>> /\ BSame
+  /\ X("deliver", [dir |-> "BA", k |-> k] @@ AArg(cb), AExp(S), S.g)
 \* a message that reached A's socket earlier (left over by sync)
-DeliverArr ==
-  LET p == arr[1]  h == Handled(p) IN
+DeliverArr(cb, ids) ==
+  LET S == Proc(<<arr[1]>>, S0, cb, ids) IN
   /\ arr # <<>> /\ held = <<>>
-  /\ wait' = h.wait /\ out' = h.out /\ arr' = SubSeq(arr, 2, Len(arr))
-  /\ UNCHANGED <<tr, cid, held, net, hg, cnt, forged>> /\ BSame
-  /\ X("deliver", [dir |-> "BA", k |-> 0], AExp(h.calls), <<p.g>>)
+  /\ Adopt(S) /\ arr' = SubSeq(arr, 2, Len(arr))
+  /\ net' = [net EXCEPT !.AB = @ \o S.ab]
+  /\ Chained(S)
+  /\ UNCHANGED <<tr, held, hg, forged, bq>> /\ BSame
+  /\ X("deliver", [dir |-> "BA", k |-> 0] @@ AArg(cb), AExp(S), S.g)
 \* nothing was left over (recorded executions only: the caller drains after sync)
-DeliverArrNone ==
+DeliverArrNone(cb) ==
   /\ arr = <<>> /\ held = <<>>
   /\ UNCHANGED xstate /\ BSame
-  /\ X("deliver", [dir |-> "BA", k |-> 0], AExp(<<>>), <<>>)
+  /\ X("deliver", [dir |-> "BA", k |-> 0] @@ AArg(cb), AExp(S0), <<>>)
 \* datagram end: receive now, dispatch later
 Hold(k) ==
-  /\ tr = "dgram" /\ OrderOK("BA", k) /\ held = <<>> /\ arr = <<>> /\ IsReply(net.BA[k].id)
+  /\ tr = "dgram" /\ OrderOK("BA", k) /\ held = <<>> /\ arr = <<>>
   /\ held' = <<net.BA[k]>>
   /\ net' = [net EXCEPT !.BA = RemoveAt(@, k)]
-  /\ UNCHANGED <<tr, cid, wait, out, arr, hg, cnt, forged>> /\ BSame
-  /\ X("hold", [k |-> k], AExp(<<>>), <<>>)
-DispatchHeld ==
-  LET p == held[1]  h == Handled(p) IN
+  /\ UNCHANGED <<tr, cid, wait, out, arr, hg, cnt, forged, bq>> /\ BSame
+  /\ X("hold", [k |-> k], AExp(S0), <<>>)
+DispatchHeld(cb, ids) ==
+  LET S == Proc(held, S0, cb, ids) IN
   /\ held # <<>>
-  /\ wait' = h.wait /\ out' = h.out /\ held' = <<>>
-  /\ UNCHANGED <<tr, cid, arr, net, hg, cnt, forged>> /\ BSame
-  /\ X("dispatch", [x |-> 0], AExp(h.calls), <<p.g>>)
+  /\ Adopt(S) /\ held' = <<>>
+  /\ net' = [net EXCEPT !.AB = @ \o S.ab]
+  /\ Chained(S)
+  /\ UNCHANGED <<tr, arr, hg, forged, bq>> /\ BSame
+  /\ X("dispatch", AArg(cb), AExp(S), S.g)
 
 (* requester: messages ks of net.BA reach the socket, then sync handles a  *)
-(* prefix of them (how many is the implementation's business): each reply  *)
-(* goes to its caller as above.                                            *)
-RECURSIVE HandleSeq(_, _, _, _)
-HandleSeq(ps, w, o, calls) ==
-  IF ps = <<>> THEN [wait |-> w, out |-> o, calls |-> calls]
-  ELSE LET p == ps[1]  n == ReplyId(p.id)
-           live == {i \in DOMAIN w : w[i].w # 0 /\ w[i].id = n}
-       IN IF IsReply(p.id) /\ live # {}
-          THEN LET i == MinOf(live)  r == w[i].w IN
-               HandleSeq(SubSeq(ps, 2, Len(ps)), [w EXCEPT ![i].w = 0],
-                         [o EXCEPT ![r].st = "answered", ![r].got = @ + 1],
-                         Append(calls, [w |-> o[r].tok, data |-> p.data]))
-          ELSE HandleSeq(SubSeq(ps, 2, Len(ps)), w, o, calls)
-Sync(ks, n) ==
+(* prefix of the replies among them (how many is the implementation's      *)
+(* business); it never goes past a message that is no reply: that one and  *)
+(* what follows stay for dispatch.                                         *)
+LeadReplies(ps) == IF \E i \in DOMAIN ps : ~IsReply(ps[i].id)
+                   THEN MinOf({i \in DOMAIN ps : ~IsReply(ps[i].id)}) - 1 ELSE Len(ps)
+Sync(ks, n, cb, ids) ==
   LET moved == arr \o [i \in DOMAIN ks |-> net.BA[ks[i]]]
-      done  == HandleSeq(SubSeq(moved, 1, n), wait, out, <<>>)
+      S     == Proc(SubSeq(moved, 1, n), S0, cb, ids)
       rest  == {i \in DOMAIN net.BA : i \notin Range(ks)}
   IN
-  /\ held = <<>> /\ n \in 0..Len(moved)
-  /\ \A i \in DOMAIN ks : ks[i] \in DOMAIN net.BA /\ IsReply(net.BA[ks[i]].id)
+  /\ held = <<>> /\ n \in 0..LeadReplies(moved)
+  /\ \A i \in DOMAIN ks : ks[i] \in DOMAIN net.BA
   /\ \A i, j \in DOMAIN ks : i # j => ks[i] # ks[j]
   /\ tr = "stream" => \A i \in DOMAIN ks : ks[i] = i
-  /\ wait' = done.wait /\ out' = done.out
+  /\ Adopt(S)
   /\ arr' = SubSeq(moved, n + 1, Len(moved))
-  /\ net' = [net EXCEPT !.BA = [i \in 1..Cardinality(rest) |->
-                                  net.BA[CHOOSE j \in rest : Cardinality({x \in rest : x < j}) = i - 1]]]
-  /\ UNCHANGED <<tr, cid, held, hg, cnt, forged>> /\ BSame
-  /\ X("sync", [ks |-> ks], [ret |-> "any", calls |-> done.calls, wire |-> <<>>],
-       [i \in 1..n |-> moved[i].g])
+  /\ net' = [AB |-> net.AB \o S.ab,
+             BA |-> [i \in 1..Cardinality(rest) |->
+                       net.BA[CHOOSE j \in rest : Cardinality({x \in rest : x < j}) = i - 1]]]
+  /\ Chained(S)
+  /\ UNCHANGED <<tr, held, hg, forged, bq>> /\ BSame
+  /\ X("sync", [ks |-> ks] @@ AArg(cb),
+       [ret |-> "any", calls |-> S.calls, chain |-> S.chain, wire |-> WireAB(S.ab)], S.g)
 
 (* requester: the connection is closed; everybody still waiting is told to give up (no reply is made up) *)
 CloseA ==
   /\ cid' = 0 /\ wait' = <<>> /\ held' = <<>> /\ arr' = <<>>
   /\ out' = [r \in DOMAIN out |-> IF Waiting(r) THEN [out[r] EXCEPT !.st = "cancelled"] ELSE out[r]]
-  /\ UNCHANGED <<tr, net, hg, cnt, forged>> /\ BSame
+  /\ UNCHANGED <<tr, net, hg, cnt, forged, bq>> /\ BSame
   /\ X("close", [x |-> 0], [ret |-> "ok", calls |-> <<>>], <<>>)
 
 (* environment: a reply nobody at B sent (duplicate, forgery) is in flight to A *)
@@ -208,7 +263,7 @@ StrayBytes(b, data) ==
   /\ IsReply(b) /\ Len(b) = max /\ cnt.stray < MaxStray
   /\ net' = [net EXCEPT !.BA = Append(@, [id |-> b, data |-> data, g |-> 0])]
   /\ cnt' = [cnt EXCEPT !.stray = @ + 1] /\ forged' = TRUE
-  /\ UNCHANGED <<tr, cid, wait, out, held, arr, hg>> /\ BSame
+  /\ UNCHANGED <<tr, cid, wait, out, held, arr, hg, bq>> /\ BSame
 Stray(of, data) ==
   /\ of \in 0..Len(out)
   /\ of # 0 => out[of].st # "reserved"
@@ -219,13 +274,44 @@ Stray(of, data) ==
 Drop(dir, k) ==
   /\ tr = "dgram" /\ k \in DOMAIN net[dir]
   /\ net' = [net EXCEPT ![dir] = RemoveAt(@, k)]
-  /\ UNCHANGED <<tr, cid, wait, out, held, arr, hg, cnt, forged>> /\ BSame
+  /\ UNCHANGED <<tr, cid, wait, out, held, arr, hg, cnt, forged, bq>> /\ BSame
   /\ X("drop", [dir |-> dir, k |-> k], [ret |-> "ok"], <<>>)
 
 ---------------------------------------------------------------------------
 (* responder: module Reply, reply context of a connection *)
 Wire(frames, g) == [i \in DOMAIN frames |-> [id |-> frames[i].id, data |-> frames[i].data, g |-> g]]
 WireExp(frames) == [i \in DOMAIN frames |-> [dir |-> "BA", id |-> frames[i].id, data |-> frames[i].data]]
+\* B as requester: the ids of its own outstanding requests (bq); a reply from A goes to the caller holding its id
+BReplied(k) ==
+  LET p == net.AB[k]
+      n == ReplyId(p.id)
+      hit == {i \in DOMAIN bq : bq[i].id = n}
+  IN
+  /\ OrderOK("AB", k) /\ IsReply(p.id)
+  /\ bq' = IF hit = {} THEN bq ELSE RemoveAt(bq, MinOf(hit))
+  /\ net' = [net EXCEPT !.AB = RemoveAt(@, k)]
+  /\ UNCHANGED <<tr, cid, wait, out, held, arr, hg, cnt, forged>> /\ BSame
+  /\ X("deliver", [dir |-> "AB", k |-> k, act |-> "none", data |-> <<>>, hret |-> 0, h |-> 0],
+       [calls |-> IF hit = {} THEN <<>> ELSE <<[w |-> bq[MinOf(hit)].tok, data |-> p.data]>>,
+        seen |-> <<>>, wire |-> <<>>, r2 |-> "none"], <<>>)
+\* B asks A: await + send in one step; n = the id B's connection handed out
+RequestB(tok, n, data) ==
+  /\ cnt.breq < MaxBReq
+  /\ n >= 1 /\ n <= WidthMax /\ Fits(ToLimbs(n), max) /\ \A i \in DOMAIN bq : bq[i].id # n /\ bq[i].tok # tok
+  /\ bq' = Append(bq, [id |-> n, tok |-> tok])
+  /\ net' = [net EXCEPT !.BA = Append(@, [id |-> Hdr(n), data |-> data, g |-> 0])]
+  /\ cnt' = [cnt EXCEPT !.breq = @ + 1]
+  /\ UNCHANGED <<tr, cid, wait, out, held, arr, hg, forged>> /\ BSame
+  /\ X("request", [end |-> "B", w |-> tok, data |-> data],
+       [ret |-> "ok", calls |-> <<>>, wire |-> <<[dir |-> "BA", id |-> Hdr(n), data |-> data]>>], <<>>)
+PlainB(data) ==
+  /\ cnt.bplain < MaxBPlain
+  /\ net' = [net EXCEPT !.BA = Append(@, [id |-> Zeros(max), data |-> data, g |-> 0])]
+  /\ cnt' = [cnt EXCEPT !.bplain = @ + 1]
+  /\ UNCHANGED <<tr, cid, wait, out, held, arr, hg, forged, bq>> /\ BSame
+  /\ X("send", [end |-> "B", data |-> data],
+       [ret |-> "ok", calls |-> <<>>, wire |-> <<[dir |-> "BA", id |-> Zeros(max), data |-> data]>>], <<>>)
+
 DeliverB(k, act, data, hret, h) ==
   LET p == net.AB[k] IN
   /\ OrderOK("AB", k) /\ ~IsReply(p.id)
@@ -233,14 +319,14 @@ DeliverB(k, act, data, hret, h) ==
      ELSE StreamRequest(p.id, p.data, IF act = "defer" THEN "none" ELSE act, data, hret)   \* (nothing to defer)
   /\ net' = [AB |-> RemoveAt(net.AB, k), BA |-> net.BA \o Wire(obs'.exp.frames, p.g)]
   /\ hg' = IF act = "defer" /\ ~AllZero(p.id) THEN [hg EXCEPT ![h] = p.g] ELSE hg
-  /\ UNCHANGED <<tr, cid, wait, out, held, arr, cnt, forged>>
+  /\ UNCHANGED <<tr, cid, wait, out, held, arr, cnt, forged, bq>>
   /\ X("deliver", [dir |-> "AB", k |-> k, act |-> act, data |-> data, hret |-> hret, h |-> h],
        [calls |-> <<>>, seen |-> obs'.exp.seen, wire |-> WireExp(obs'.exp.frames), r2 |-> obs'.exp.r2], <<>>)
 DReplyB(h, data) ==
   /\ StreamDeferred(h, data)
   /\ net' = [net EXCEPT !.BA = @ \o Wire(obs'.exp.frames, hg[h])]
   /\ hg' = [hg EXCEPT ![h] = 0]
-  /\ UNCHANGED <<tr, cid, wait, out, held, arr, cnt, forged>>
+  /\ UNCHANGED <<tr, cid, wait, out, held, arr, cnt, forged, bq>>
   /\ X("dreply", [h |-> h, data |-> data],
        [ret |-> obs'.exp.ret, calls |-> <<>>, wire |-> WireExp(obs'.exp.frames)], <<>>)
 LateB(data) ==
@@ -253,17 +339,23 @@ XInitWith(t, m) ==
   /\ InitStream(m, "conn")
   /\ tr = t /\ cid = 0 /\ wait = <<>> /\ out = <<>>
   /\ net = [AB |-> <<>>, BA |-> <<>>] /\ held = <<>> /\ arr = <<>>
-  /\ hg = [h \in 1..MaxH |-> 0] /\ cnt = [plain |-> 0, stray |-> 0] /\ forged = FALSE
+  /\ hg = [h \in 1..MaxH |-> 0] /\ cnt = [plain |-> 0, stray |-> 0, breq |-> 0, bplain |-> 0, chain |-> 0] /\ forged = FALSE /\ bq = <<>>
   /\ xobs = [a |-> "init", arg |-> [tr |-> t, max |-> m], exp |-> [ret |-> "ok"], g |-> <<>>]
 XInit == \E t \in Transports, m \in ConnWidths : XInitWith(t, m)
 
+\* caller scripts offered to the model checker / behaviour export: a follow-up request only while the bound allows one
+Cbs == {[ret |-> c, chain |-> 0, cw |-> 0, hret |-> -3] : c \in CRets}
+       \cup (IF cnt.chain < MaxChain THEN {[ret |-> 0, chain |-> 1, cw |-> Cur + 1, hret |-> -3]} ELSE {})
 Tag(p)  == IF p.data = <<>> THEN <<9>> ELSE <<p.data[1], 9>>      \* the answer names the request it is for
 XNext ==
   \/ \E n \in IdCand \cup {OpReserve.id} : AwaitOk(n, Cur + 1)
   \/ AwaitRefused(Cur + 1)
   \/ Send(IF cid # 0 THEN <<Cur, 7>> ELSE <<0, 7>>) /\ (cid = 0 => cnt.plain < MaxPlain)
-  \/ \E k \in DOMAIN net.BA : DeliverA(k) \/ Hold(k) \/ Drop("BA", k)
-  \/ DeliverArr \/ DispatchHeld
+  \/ \E k \in DOMAIN net.BA : Hold(k) \/ Drop("BA", k)
+  \/ \E cb \in Cbs : (\E k \in DOMAIN net.BA : DeliverA(k, cb, <<>>)) \/ DeliverArr(cb, <<>>) \/ DispatchHeld(cb, <<>>)
+  \/ RequestB(1001 + cnt.breq, cnt.breq + 1, <<5, 5>>)
+  \/ PlainB(<<6, 6>>)
+  \/ \E k \in DOMAIN net.AB : BReplied(k)
   \/ \E k \in DOMAIN net.AB : Drop("AB", k)
   \/ \E k \in DOMAIN net.AB, act \in BActs, hret \in BHrets :
         DeliverB(k, act, Tag(net.AB[k]), hret, 0)
@@ -272,10 +364,10 @@ XNext ==
   \/ \E h \in 1..MaxH : DReplyB(h, <<hg[h], 8>>)
   \/ LateB(<<5>>)
   \/ \E of \in 0..Len(out) : Stray(of, <<99>>)
-XNextSync ==
-  \/ SyncMax >= 1 /\ \E k1 \in DOMAIN net.BA : \E n \in 0..(Len(arr) + 1) : Sync(<<k1>>, n)
-  \/ SyncMax >= 2 /\ \E k1, k2 \in DOMAIN net.BA : \E n \in 0..(Len(arr) + 2) : Sync(<<k1, k2>>, n)
-  \/ SyncMax >= 1 /\ \E n \in 0..Len(arr) : arr # <<>> /\ Sync(<<>>, n)
+XNextSync == \E cb \in Cbs :
+  \/ SyncMax >= 1 /\ \E k1 \in DOMAIN net.BA : \E n \in 0..(Len(arr) + 1) : Sync(<<k1>>, n, cb, <<>>)
+  \/ SyncMax >= 2 /\ \E k1, k2 \in DOMAIN net.BA : \E n \in 0..(Len(arr) + 2) : Sync(<<k1, k2>>, n, cb, <<>>)
+  \/ SyncMax >= 1 /\ \E n \in 0..Len(arr) : arr # <<>> /\ Sync(<<>>, n, cb, <<>>)
 XSpec == XInit /\ [][XNext \/ XNextSync]_xvars
 
 ---------------------------------------------------------------------------
@@ -299,28 +391,35 @@ AtMostOnce == \A r \in DOMAIN out : out[r].got <= 1 /\ (out[r].got = 1 <=> out[r
 IdsFit == \A r \in DOMAIN out : out[r].id >= 1 /\ Fits(ToLimbs(out[r].id), max)
 HeaderOK == \A i \in DOMAIN net.AB :
   LET p == net.AB[i] IN
-  IF p.g = 0 THEN AllZero(p.id) /\ Len(p.id) = max
+  IF p.g = 0 THEN (AllZero(p.id) \/ IsReply(p.id)) /\ Len(p.id) = max
   ELSE LET id == ToLimbs(out[p.g].id)  o == OpId2Buf(id, max) IN
        /\ o.ok /\ o.buf = p.id /\ Len(p.id) = max /\ p.id[1] < 128
        /\ RefBuf2Id(p.id) = [ok |-> TRUE, id |-> id]
        /\ OpBuf2Id(Unmark(Mark(p.id))) = [ok |-> TRUE, id |-> id]
 
 (* action properties *)
-AStep == xobs'.a \in {"deliver", "dispatch", "sync", "hold"} /\ "calls" \in DOMAIN xobs'.exp
-ReqOf(tok) == CHOOSE r \in DOMAIN out : out[r].tok = tok
+AStep == /\ xobs'.a \in {"deliver", "dispatch", "sync", "hold"} /\ "calls" \in DOMAIN xobs'.exp
+         /\ ~(xobs'.a = "deliver" /\ xobs'.arg.dir = "AB")
+ReqOf(tok) == CHOOSE r \in DOMAIN out' : out'[r].tok = tok
 Called == {ReqOf(xobs'.exp.calls[i].w) : i \in DOMAIN xobs'.exp.calls}
 \* a reply is handed to a caller that was waiting for it, once, and that ends the wait;
 \* everybody else is left alone
 RightWaiter == [][AStep =>
   /\ \A i, j \in DOMAIN xobs'.exp.calls : i # j => xobs'.exp.calls[i].w # xobs'.exp.calls[j].w
-  /\ \A r \in Called : Waiting(r) /\ out'[r].st = "answered" /\ out'[r].got = out[r].got + 1
+  /\ \A r \in Called : /\ out'[r].st = "answered" /\ out'[r].got = 1
+                       /\ r \in DOMAIN out => (Waiting(r) /\ out[r].got = 0)      \* (else: asked and answered within the step)
   /\ \A r \in DOMAIN out : r \notin Called => out'[r] = out[r]
-  /\ \A i \in DOMAIN wait : wait[i].w \notin Called => (i \in DOMAIN wait' /\ wait'[i] = wait[i])
+  /\ \A i \in LiveSlots : wait[i].w \notin Called => \E j \in DOMAIN wait' : wait'[j] = wait[i]
   ]_xvars
 \* without forged replies the answer B gave to request r reaches the caller of request r
 EndToEnd == [][(AStep /\ ~forged') =>
   /\ Len(xobs'.exp.calls) = Len(xobs'.g)
   /\ \A i \in DOMAIN xobs'.g : xobs'.g[i] \in DOMAIN out /\ xobs'.exp.calls[i].w = out[xobs'.g[i]].tok
+  ]_xvars
+\* a message that is no reply reaches the handler of the end it is for exactly once, wherever it arrives
+\* (dispatch, or left over by sync): what is taken from the socket and not handled stays in arr / held
+NothingLost == [][(xobs'.a \in {"sync", "hold"}) =>
+     Len(arr') + Len(held') + Len(net'.BA) + Len(xobs'.g) >= Len(arr) + Len(held) + Len(net.BA)
   ]_xvars
 \* an id is handed out only while no waiting caller holds it; the code's choice is such an id
 ReserveTiers == [][(xobs'.a = "await") =>
